@@ -5,7 +5,7 @@ CONSTANTS
   OpKinds = {"Load", "Render", "Get", "Validate", "Remove", "Clear", "SetBasePath"}
   ArgNames = {"base", "A", "B", "G"}
   Entries = {"doc", "tpl"}
-  MaxLoads = 3
+  MaxLoads = 4
   Depth = 0
 INVARIANTS Inv_ShowsPure Inv_RenderPure Inv_CacheAgree
 PROPERTIES Act_Local Act_ReadersPure Act_ValuesImmutable
